@@ -501,7 +501,7 @@ func (r *e1run) decode(ui *uriInfo) {
 					switch r.cfg.Tracks[ti].Kind {
 					case "h264", "h264b":
 						du.data, err = s.GetH264()
-					case "h265":
+					case "h265", "h265b":
 						du.data, err = s.GetH265()
 					case "av1":
 						du.data, err = s.GetAV1()
